@@ -97,31 +97,143 @@ theorem entries_of_runIdInv (t : TState) (hn : KeysNodup t.cps) (h : RunIdInv t)
   have := h p.1 o (by rw [hg]; exact ho)
   rw [hg] at this; exact this
 
-/-- what holds of the target between two operations -/
+/-- entry form of `Target.UniqueMax`: database `d` holds offset `o`, every other record a
+    strictly smaller one -/
+def UMax (cps : Recs) (d o : Int) : Prop :=
+  (∃ r, (d, r) ∈ cps ∧ r.offset = some o) ∧
+  ∀ p ∈ cps, p.1 ≠ d → ∀ o', p.2.offset = some o' → o' < o
+
+theorem uniqueMax_of_umax {cps : Recs} (hn : KeysNodup cps) {d o : Int} (h : UMax cps d o) :
+    UniqueMax cps d o := by
+  obtain ⟨⟨r, hr, hro⟩, hoth⟩ := h
+  refine ⟨by rw [C02.getCp_of_mem cps hn (d, r) hr]; exact hro, ?_⟩
+  intro d' hd' o' ho'
+  obtain ⟨r', hr', hg⟩ := C02.mem_of_getCp_offset cps d' o' ho'
+  exact hoth (d', r') hr' hd' o' (by rw [← hg]; exact ho')
+
+theorem umax_of_uniqueMax {cps : Recs} (hn : KeysNodup cps) {d o : Int} (h : UniqueMax cps d o) :
+    UMax cps d o := by
+  obtain ⟨r, hr, hg⟩ := C02.mem_of_getCp_offset cps d o h.1
+  refine ⟨⟨r, hr, by rw [← hg]; exact h.1⟩, ?_⟩
+  intro p hp hpd o' ho'
+  exact h.2 p.1 hpd o' (by rw [C02.getCp_of_mem cps hn p hp]; exact ho')
+
+theorem mem_same_key {cps : Recs} (hn : KeysNodup cps) {p q : Int × CpRec} (hp : p ∈ cps)
+    (hq : q ∈ cps) (h : p.1 = q.1) : p = q := by
+  have h1 := lookup_of_mem_nodup cps hn p hp
+  have h2 := lookup_of_mem_nodup cps hn q hq
+  rw [h, h2] at h1
+  injection h1 with h1
+  exact Prod.ext h h1.symm
+
+theorem umax_max {cps : Recs} (hn : KeysNodup cps) {d o : Int} (h : UMax cps d o) (ho : 0 ≤ o) :
+    maxOffset cps = o := by
+  obtain ⟨⟨r, hr, hro⟩, hoth⟩ := h
+  have h1 : o ≤ maxOffset cps := le_maxOffset_of_mem cps (d, r) hr o hro
+  obtain ⟨p, hp, hpo⟩ := maxOffset_attained cps (by omega)
+  by_cases hpd : p.1 = d
+  · have := mem_same_key hn hp hr hpd
+    subst this
+    rw [hro] at hpo; injection hpo with hpo; omega
+  · have := hoth p hp hpd _ hpo
+    omega
+
+/-- the record that holds the largest offset is the one of `UMax`'s database -/
+theorem umax_key {cps : Recs} {d o : Int} (h : UMax cps d o) {p : Int × CpRec} (hp : p ∈ cps)
+    (hpo : p.2.offset = some o) : p.1 = d := by
+  by_cases hpd : p.1 = d
+  · exact hpd
+  · have := h.2 p hp hpd o hpo; omega
+
+/-- what holds of the target between two operations: one record per database, every offset with
+    its run id, and a position (largest offset ≥ 0) sits in exactly ONE database -/
 structure Good (t : TState) : Prop where
   nodup : KeysNodup t.cps
   runid : EntriesRunId t.cps
+  upos : 0 ≤ maxOffset t.cps → ∃ d, UMax t.cps d (maxOffset t.cps)
+
+/-- what the modelled `GetCheckpoint` reports: nothing, or THE database of the largest offset -/
+theorem read_of_good (t : TState) (hg : Good t) :
+    (maxOffset t.cps < 0 ∧ readDbs t = []) ∨
+    (0 ≤ maxOffset t.cps ∧ ∃ d, UMax t.cps d (maxOffset t.cps) ∧ readDbs t = [d]) := by
+  by_cases hm : 0 ≤ maxOffset t.cps
+  · right
+    obtain ⟨d, hd⟩ := hg.upos hm
+    refine ⟨hm, d, hd, ?_⟩
+    have := C02.startPoint_of_uniqueMax t hg.nodup (runIdInv_of_entries t hg.runid) d _
+      (uniqueMax_of_umax hg.nodup hd) hm
+    unfold readDbs; rw [this]
+  · left
+    refine ⟨by omega, ?_⟩
+    unfold readDbs startPoint
+    simp [show maxOffset t.cps < 0 by omega]
+
+/-- two tables with the same position in the same database are read alike -/
+theorem readDbs_eq_of_umax (t t' : TState) (hg : Good t) (hg' : Good t') (d : Int)
+    (hm : 0 ≤ maxOffset t.cps) (hu : UMax t.cps d (maxOffset t.cps))
+    (hu' : UMax t'.cps d (maxOffset t.cps)) : readDbs t' = readDbs t := by
+  have hm' : maxOffset t'.cps = maxOffset t.cps := umax_max hg'.nodup hu' hm
+  rcases read_of_good t hg with ⟨h, _⟩ | ⟨_, d1, hd1, hr1⟩
+  · omega
+  rcases read_of_good t' hg' with ⟨h, _⟩ | ⟨_, d2, hd2, hr2⟩
+  · omega
+  rw [hm'] at hd2
+  obtain ⟨⟨r1, hr1m, hr1o⟩, _⟩ := hd1
+  obtain ⟨⟨r2, hr2m, hr2o⟩, _⟩ := hd2
+  have e1 : d1 = d := umax_key hu hr1m hr1o
+  have e2 : d2 = d := umax_key hu' hr2m hr2o
+  rw [hr1, hr2, e1, e2]
 
 theorem mem_setCp {cps : Recs} {db : Int} {r : CpRec} {p : Int × CpRec} (h : p ∈ setCp cps db r) :
-    p = (db, r) ∨ p ∈ cps := by
+    p = (db, r) ∨ (p ∈ cps ∧ p.1 ≠ db) := by
   unfold setCp at h
   rcases List.mem_cons.mp h with h | h
   · exact Or.inl h
-  · exact Or.inr (List.mem_filter.mp h).1
+  · have := List.mem_filter.mp h
+    exact Or.inr ⟨this.1, by simpa using this.2⟩
 
-theorem good_setCp (t : TState) (h : Good t) (db : Int) (r : CpRec)
-    (hr : ∀ o, r.offset = some o → r.hasRunId = true) (t' : TState) (ht : t'.cps = setCp t.cps db r) :
-    Good t' := by
-  refine ⟨by rw [ht]; exact keysNodup_setCp _ _ _ h.nodup, ?_⟩
-  intro p hp o ho
-  rw [ht] at hp
-  rcases mem_setCp hp with rfl | hp
-  · exact hr o ho
-  · exact h.runid p hp o ho
-
-theorem good_sub (t : TState) (h : Good t) (t' : TState)
-    (hsub : List.Sublist t'.cps t.cps) : Good t' :=
-  ⟨List.Nodup.sublist (hsub.map _) h.nodup, fun p hp o ho => h.runid p (hsub.subset hp) o ho⟩
+/-- writing ONE record (with its run id) into database 0 of a table that holds no position:
+    a snapshot offset `off ≥ 0` becomes THE position, the marker −1 leaves none -/
+theorem good_setCp_none (t : TState) (h : Good t) (hnone : maxOffset t.cps < 0) (off : Int)
+    (t' : TState) (ht : t'.cps = setCp t.cps 0 { offset := some off, hasRunId := true }) :
+    Good t' ∧ (0 ≤ off → maxOffset t'.cps = off ∧ UMax t'.cps 0 off) ∧
+      (off < 0 → maxOffset t'.cps < 0) := by
+  have hn' : KeysNodup t'.cps := by rw [ht]; exact keysNodup_setCp _ _ _ h.nodup
+  have hold : ∀ p ∈ t.cps, ∀ o, p.2.offset = some o → o < 0 := by
+    intro p hp o ho
+    have := le_maxOffset_of_mem t.cps p hp o ho; omega
+  have hrun : EntriesRunId t'.cps := by
+    intro p hp o ho
+    rw [ht] at hp
+    rcases mem_setCp hp with rfl | ⟨hp, _⟩
+    · rfl
+    · exact h.runid p hp o ho
+  have hpos : 0 ≤ off → maxOffset t'.cps = off ∧ UMax t'.cps 0 off := by
+    intro hoff
+    have hum : UMax t'.cps 0 off := by
+      refine ⟨⟨_, by rw [ht]; exact List.mem_cons_self .., rfl⟩, ?_⟩
+      intro p hp hp0 o' ho'
+      rw [ht] at hp
+      rcases mem_setCp hp with rfl | ⟨hp, _⟩
+      · exact absurd rfl hp0
+      · have := hold p hp o' ho'; omega
+    exact ⟨umax_max hn' hum hoff, hum⟩
+  have hneg : off < 0 → maxOffset t'.cps < 0 := by
+    intro hoff
+    by_cases hm : 0 ≤ maxOffset t'.cps
+    · exfalso
+      obtain ⟨p, hp, hpo⟩ := maxOffset_attained _ hm
+      rw [ht] at hp
+      rcases mem_setCp hp with rfl | ⟨hp, _⟩
+      · simp only [Option.some.injEq] at hpo; omega
+      · have := hold p hp _ hpo; omega
+    · omega
+  refine ⟨⟨hn', hrun, ?_⟩, hpos, hneg⟩
+  intro hm
+  by_cases hoff : 0 ≤ off
+  · obtain ⟨e, hu⟩ := hpos hoff
+    exact ⟨0, by rw [e]; exact hu⟩
+  · have := hneg (by omega); omega
 
 /-! ### the history -/
 
@@ -137,74 +249,108 @@ theorem Allowed.mono {t0 : TState} {S B S' B' : List Int} {o : Int} (h : Allowed
   · exact Or.inr (Or.inr (Or.inl (hB o h)))
   · exact Or.inr (Or.inr (Or.inr h))
 
-/-- one observation: the operation was a sanctioned reset or not, the position
-    `GetCheckpoint` read before it and after it -/
-structure Obs where
-  reset : Bool
-  before : Int
-  after : Int
+inductive OpKind | snapshot | relabel | reset | life
   deriving DecidableEq, Repr
 
-def obs (reset : Bool) (t : TState) (op : Op) : Obs :=
-  { reset := reset, before := readPos t, after := readPos (applyOp t op) }
+/-- one observation: the kind of operation and what `GetCheckpoint` read before and after it --
+    the POSITION is the offset AND the database it is reported in -/
+structure Obs where
+  kind : OpKind
+  before : Int
+  after : Int
+  dbsBefore : List Int
+  dbsAfter : List Int
+  deriving DecidableEq, Repr
+
+def obs (kind : OpKind) (t : TState) (op : Op) : Obs :=
+  { kind := kind, before := readPos t, after := readPos (applyOp t op),
+    dbsBefore := readDbs t, dbsAfter := readDbs (applyOp t op) }
+
+/-- what every observation of a history satisfies -/
+def ObsOK (ob : Obs) : Prop :=
+  (ob.kind ≠ .reset → ob.before ≤ ob.after) ∧
+  (ob.kind = .reset → (ob.after = ob.before ∧ ob.dbsAfter = ob.dbsBefore) ∨ ob.after = -1) ∧
+  (ob.kind = .relabel → ob.after = ob.before ∧ ob.dbsAfter = ob.dbsBefore) ∧
+  (0 ≤ ob.after → ∃ d, ob.dbsAfter = [d])
 
 /-- **Histories**: any interleaving of the four writers.
     * `snapshot`: `sendOutput` resets the position (to completion) before it replays a snapshot
       and `sendRdb` stores the snapshot's offset once the replay is complete: it finds no
       position (`readPos t < 0`; the relabel marker −1 may be there);
     * `relabel`, `reset`: at any moment, complete or cut (`gone`; a reset deletes in ascending
-      order of the offsets: `AscGone`);
-    * `life`: the loop is started at `x`, the position read (when none is stored: any offset,
-      e.g. the in-memory one), with the REAL parser's items for ANY source stream above `x`,
-      ANY batching configuration and schedule, and dies after ANY number `k` of requests. -/
+      order of the offsets: `AscGone`, a CONSEQUENCE of the modelled order of `DelCheckpoints`
+      -- `ascGone_delOrder`, constructor-like lemma `Hist.resetCut`);
+    * `life`: the loop is started at the position read -- offset `x` AND database
+      `pc.startDbId` (what `StartPoint` put into `ro.startDbId`) --, with the REAL parser's items
+      for ANY source stream above `x`, ANY batching configuration and schedule, and dies after
+      ANY number `k` of requests. (A history without a stored position starts with a snapshot,
+      as the tool does: no position => full synchronisation.) -/
 inductive Hist (t0 : TState) : TState → List Int → List Int → List Obs → Prop
   | init : Hist t0 t0 [] [] []
   | snapshot {t : TState} {S B : List Int} {tr : List Obs} (h : Hist t0 t S B tr) (off : Int)
       (hnone : readPos t < 0) (hoff : 0 ≤ off) :
-      Hist t0 (applyOp t (.snapshot off)) (off :: S) B (obs false t (.snapshot off) :: tr)
+      Hist t0 (applyOp t (.snapshot off)) (off :: S) B (obs .snapshot t (.snapshot off) :: tr)
   | relabel {t : TState} {S B : List Int} {tr : List Obs} (h : Hist t0 t S B tr) (gone : Int → Bool) :
-      Hist t0 (applyOp t (.relabel gone)) S B (obs false t (.relabel gone) :: tr)
+      Hist t0 (applyOp t (.relabel gone)) S B (obs .relabel t (.relabel gone) :: tr)
   | reset {t : TState} {S B : List Int} {tr : List Obs} (h : Hist t0 t S B tr) (gone : Int → Bool)
       (hasc : AscGone t.cps gone) :
-      Hist t0 (applyOp t (.reset gone)) S B (obs true t (.reset gone) :: tr)
+      Hist t0 (applyOp t (.reset gone)) S B (obs .reset t (.reset gone) :: tr)
   | life {t : TState} {S B : List Int} {tr : List Obs} (h : Hist t0 t S B tr)
       (pc : PCfg) (sc : SCfg) (raws : List Raw) (x : Int) (evs : List Ev) (k : Nat)
-      (hx : readPos t ≤ x) (hx0 : 0 ≤ x)
+      (hx : readPos t = x) (hx0 : 0 ≤ x)
+      (hd : readDbs t = [pc.startDbId]) (hdb : 0 ≤ pc.startDbId)
       (hitems : itemsOf evs = parserItems pc x raws)
       (hraw : (raws.map (·.off)).Pairwise (· < ·)) (hlo : ∀ r ∈ raws, x < r.off)
       (hsel : ∀ r ∈ raws, r.cmd = bSelect → ∀ a n, r.args = [a] → atoi? a = some n → 0 ≤ n) :
       Hist t0 (applyOp t (.life sc evs k)) S (x :: raws.map (·.off) ++ B)
-        (obs false t (.life sc evs k) :: tr)
+        (obs .life t (.life sc evs k) :: tr)
 
-/-- every stored offset (in whichever database: a cut reset can expose any of them) -/
+/-- every stored offset (in whichever database) -/
 def AllStored (t : TState) (P : Int → Prop) : Prop := ∀ p ∈ t.cps, ∀ o, p.2.offset = some o → P o
 
 theorem lifeT_eq_nextT (c : SCfg) (t : TState) (evs : List Ev) (k : Nat) :
     lifeT c t evs k = nextT c t evs k := rfl
 
-/-- one life: invariants, monotonicity and where its stored offsets come from -/
+/-- one life, started at the position read IN ITS DATABASE: invariants (the position is again in
+    exactly one database: C02 `resumed_crash_keeps_unique_max`), monotonicity, and where its
+    stored offsets come from -/
 theorem life_good (t : TState) (hg : Good t) (pc : PCfg) (sc : SCfg) (raws : List Raw) (x : Int)
-    (evs : List Ev) (k : Nat) (hx : readPos t ≤ x)
+    (evs : List Ev) (k : Nat) (hx : readPos t = x) (hx0 : 0 ≤ x)
+    (hd : readDbs t = [pc.startDbId]) (hdb : 0 ≤ pc.startDbId)
     (hitems : itemsOf evs = parserItems pc x raws)
     (hraw : (raws.map (·.off)).Pairwise (· < ·)) (hlo : ∀ r ∈ raws, x < r.off)
     (hsel : ∀ r ∈ raws, r.cmd = bSelect → ∀ a n, r.args = [a] → atoi? a = some n → 0 ≤ n) :
     Good (lifeT sc t evs k) ∧ readPos t ≤ readPos (lifeT sc t evs k) ∧
     AllStored (lifeT sc t evs k) (fun o =>
       (∃ p ∈ t.cps, p.2.offset = some o) ∨ o = x ∨ ∃ r ∈ raws, r.off = o) := by
+  rw [readPos_eq] at hx
   have hge : ∀ o ∈ itemOffsets evs, maxOffset t.cps ≤ o := by
     intro o ho
     have := resumed_items_not_below_start pc x raws evs hitems hraw
       (fun r hr => by have := hlo r hr; omega) o ho
-    rw [readPos_eq] at hx; omega
+    omega
   obtain ⟨hn', hmono⟩ := restart_never_lowers_position sc t evs k hg.nodup hge
   have hrid : RunIdInv (lifeT sc t evs k) := by
     have hev := parser_items_selOK pc x raws evs hitems hsel
     have h0 : RunIdInv (crash t) := by
       intro d o ho; exact runIdInv_of_entries t hg.runid d o ho
     exact cp_offset_has_runid sc evs hev (crash t) rfl rfl h0 k
+  -- the position the life starts from sits in the database it starts in
+  have hu : UniqueMax t.cps pc.startDbId x := by
+    rcases read_of_good t hg with ⟨h, _⟩ | ⟨_, d, hdu, hrd⟩
+    · omega
+    · rw [hd] at hrd
+      injection hrd with hrd
+      rw [hrd, ← hx]
+      exact uniqueMax_of_umax hg.nodup hdu
+  obtain ⟨d', o', ho', hu'⟩ := C02.resumed_crash_keeps_unique_max sc pc raws x evs hitems hraw hlo hx0 hdb
+    (crash t) rfl rfl hu k
   rw [lifeT_eq_nextT]
-  refine ⟨⟨hn', ?_⟩, by rw [readPos_eq, readPos_eq]; exact hmono, ?_⟩
-  · exact entries_of_runIdInv _ hn' hrid
+  refine ⟨⟨hn', entries_of_runIdInv _ hn' hrid, ?_⟩, by rw [readPos_eq, readPos_eq]; exact hmono, ?_⟩
+  · intro _
+    have hu'' : UMax (nextT sc t evs k).cps d' o' := umax_of_uniqueMax hn' hu'
+    have := umax_max hn' hu'' (by omega)
+    exact ⟨d', by rw [this]; exact hu''⟩
   · intro p hp o ho
     obtain ⟨E, hE, hsame⟩ := crash_executes_body_prefix (run sc initS evs).2 (run_wf sc initS evs)
       (crash t) rfl k
@@ -224,27 +370,156 @@ theorem life_good (t : TState) (hg : Good t) (pc : PCfg) (sc : SCfg) (raws : Lis
         exact List.mem_append_left _ h
       exact stored_position_is_command_end pc sc raws x evs hitems hraw hlo o this
 
-/-- **ALL WRITERS: the position only moves forward, along boundaries.** For every target
-    `t0` with one record per database and every offset with its run id (e.g. an empty one),
-    and EVERY history of end-of-snapshot writes, relabels, sanctioned resets and replay-loop
-    lives — any interleaving, any crash points — in the state reached:
+/-- the three shapes of a relabel -/
+theorem relabel_cases (t : TState) (hg : Good t) (gone : Int → Bool) :
+    (relabelCps t.cps gone = markerCps t.cps ∧ maxOffset t.cps < 0) ∨
+    (0 ≤ maxOffset t.cps ∧ ∃ p ∈ t.cps, p.2.offset = some (maxOffset t.cps) ∧
+      relabelCps t.cps gone = p :: t.cps.filter (fun q => decide (q.1 ≠ p.1) && !gone q.1)) := by
+  unfold relabelCps
+  by_cases hm : maxOffset t.cps < 0
+  · left; simp [hm]
+  · right
+    refine ⟨by omega, ?_⟩
+    simp only [hm, ↓reduceIte]
+    cases hc : carrier t.cps with
+    | none =>
+      exfalso
+      obtain ⟨p, hp, ho⟩ := maxOffset_attained t.cps (by omega)
+      have hr := hg.runid p hp _ ho
+      unfold carrier at hc
+      have := List.find?_eq_none.mp hc p hp
+      simp [ho, hr] at this
+    | some p =>
+      unfold carrier at hc
+      have hp := List.mem_of_find?_eq_some hc
+      have hpred := List.find?_some hc
+      simp only [Bool.and_eq_true, decide_eq_true_eq] at hpred
+      exact ⟨p, hp, hpred.1, rfl⟩
+
+/-- a relabel, complete or cut: invariants again, the same offset in the same database, no new
+    stored value but the marker -/
+theorem relabel_good (t : TState) (hg : Good t) (gone : Int → Bool) :
+    Good (applyOp t (.relabel gone)) ∧
+    readPos (applyOp t (.relabel gone)) = readPos t ∧
+    readDbs (applyOp t (.relabel gone)) = readDbs t ∧
+    AllStored (applyOp t (.relabel gone)) (fun o => o = -1 ∨ ∃ p ∈ t.cps, p.2.offset = some o) := by
+  rcases relabel_cases t hg gone with ⟨hcps, hm⟩ | ⟨hm, p, hp, hpo, hcps⟩
+  · obtain ⟨hg', _, hneg⟩ := good_setCp_none t hg hm (-1) (applyOp t (.relabel gone)) hcps
+    have hm' := hneg (by omega)
+    refine ⟨hg', ?_, ?_, ?_⟩
+    · rw [readPos_eq, readPos_eq]
+      have := maxOffset_ge t.cps; have := maxOffset_ge (applyOp t (.relabel gone)).cps; omega
+    · rcases read_of_good _ hg' with ⟨_, h1⟩ | ⟨h, _⟩
+      · rcases read_of_good t hg with ⟨_, h2⟩ | ⟨h, _⟩
+        · rw [h1, h2]
+        · omega
+      · omega
+    · intro q hq o ho
+      have hq' : q ∈ setCp t.cps 0 { offset := some (-1), hasRunId := true } := by
+        have hq2 : q ∈ relabelCps t.cps gone := hq
+        rw [hcps] at hq2; exact hq2
+      rcases mem_setCp hq' with rfl | ⟨hq', _⟩
+      · simp only [Option.some.injEq] at ho; exact Or.inl ho.symm
+      · exact Or.inr ⟨q, hq', ho⟩
+  · have hcps' : (applyOp t (.relabel gone)).cps =
+        p :: t.cps.filter (fun q => decide (q.1 ≠ p.1) && !gone q.1) := hcps
+    have hsubset : ∀ q ∈ (applyOp t (.relabel gone)).cps, q ∈ t.cps := by
+      intro q hq
+      rw [hcps'] at hq
+      rcases List.mem_cons.mp hq with rfl | hq
+      · exact hp
+      · exact (List.mem_filter.mp hq).1
+    have hn' : KeysNodup (applyOp t (.relabel gone)).cps := by
+      unfold KeysNodup
+      rw [hcps']
+      simp only [List.map_cons, List.nodup_cons]
+      refine ⟨?_, List.Nodup.sublist (List.Sublist.map _ List.filter_sublist) hg.nodup⟩
+      intro hmem
+      obtain ⟨q, hq, hqe⟩ := List.mem_map.mp hmem
+      have := (List.mem_filter.mp hq).2
+      simp only [Bool.and_eq_true, decide_eq_true_eq] at this
+      exact this.1 hqe
+    obtain ⟨d, hdu⟩ := hg.upos hm
+    have hpd : p.1 = d := umax_key hdu hp hpo
+    have hu' : UMax (applyOp t (.relabel gone)).cps d (maxOffset t.cps) := by
+      refine ⟨⟨p.2, by rw [hcps', ← hpd]; exact List.mem_cons_self .., hpo⟩, ?_⟩
+      intro q hq hqd o' ho'
+      exact hdu.2 q (hsubset q hq) hqd o' ho'
+    have hmax : maxOffset (applyOp t (.relabel gone)).cps = maxOffset t.cps := umax_max hn' hu' hm
+    have hg' : Good (applyOp t (.relabel gone)) :=
+      ⟨hn', fun q hq o ho => hg.runid q (hsubset q hq) o ho,
+        fun _ => ⟨d, by rw [hmax]; exact hu'⟩⟩
+    refine ⟨hg', by rw [readPos_eq, readPos_eq]; exact hmax,
+      readDbs_eq_of_umax t _ hg hg' d hm hdu hu', ?_⟩
+    intro q hq o ho
+    exact Or.inr ⟨q, hsubset q hq, ho⟩
+
+/-- a sanctioned reset, complete or cut in ascending order: invariants again; the position is
+    what it was -- offset AND database -- or none -/
+theorem reset_good (t : TState) (hg : Good t) (gone : Int → Bool) (hasc : AscGone t.cps gone) :
+    Good (applyOp t (.reset gone)) ∧
+    ((readPos (applyOp t (.reset gone)) = readPos t ∧
+        readDbs (applyOp t (.reset gone)) = readDbs t) ∨
+      readPos (applyOp t (.reset gone)) = -1) ∧
+    (∀ q ∈ (applyOp t (.reset gone)).cps, q ∈ t.cps) := by
+  have hsub : List.Sublist (applyOp t (.reset gone)).cps t.cps := List.filter_sublist
+  have hn' : KeysNodup (applyOp t (.reset gone)).cps := List.Nodup.sublist (hsub.map _) hg.nodup
+  have hkc := reset_keeps_or_clears t.cps gone hasc
+  have hkc' : maxOffset (applyOp t (.reset gone)).cps = maxOffset t.cps ∨
+      maxOffset (applyOp t (.reset gone)).cps = -1 := hkc
+  have hup : 0 ≤ maxOffset (applyOp t (.reset gone)).cps →
+      ∃ d, UMax t.cps d (maxOffset t.cps) ∧ UMax (applyOp t (.reset gone)).cps d (maxOffset t.cps) ∧
+        maxOffset (applyOp t (.reset gone)).cps = maxOffset t.cps := by
+    intro h0
+    have heq : maxOffset (applyOp t (.reset gone)).cps = maxOffset t.cps := by
+      rcases hkc' with h | h
+      · exact h
+      · omega
+    obtain ⟨d, hdu⟩ := hg.upos (by omega)
+    obtain ⟨p', hp', hpo'⟩ := maxOffset_attained _ h0
+    rw [heq] at hpo'
+    have hkey : p'.1 = d := umax_key hdu (hsub.subset hp') hpo'
+    refine ⟨d, hdu, ⟨⟨p'.2, by rw [← hkey]; exact hp', hpo'⟩, ?_⟩, heq⟩
+    intro q hq hqd o' ho'
+    exact hdu.2 q (hsub.subset hq) hqd o' ho'
+  have hg' : Good (applyOp t (.reset gone)) :=
+    ⟨hn', fun q hq o ho => hg.runid q (hsub.subset hq) o ho, fun h0 => by
+      obtain ⟨d, _, hu', heq⟩ := hup h0
+      exact ⟨d, by rw [heq]; exact hu'⟩⟩
+  refine ⟨hg', ?_, fun q hq => hsub.subset hq⟩
+  by_cases h0 : 0 ≤ maxOffset (applyOp t (.reset gone)).cps
+  · left
+    obtain ⟨d, hdu, hu', heq⟩ := hup h0
+    exact ⟨by rw [readPos_eq, readPos_eq]; exact heq,
+      readDbs_eq_of_umax t _ hg hg' d (by omega) hdu hu'⟩
+  · right
+    rw [readPos_eq]
+    have := maxOffset_ge (applyOp t (.reset gone)).cps; omega
+
+/-- **ALL FOUR WRITERS of the replay path: the position -- offset AND database -- only moves
+    forward, along boundaries.** For every target `t0` with one record per database, every
+    offset with its run id and the position in one database (e.g. an empty target), and EVERY
+    history of end-of-snapshot writes, relabels, sanctioned resets and replay-loop lives -- any
+    interleaving, any crash points -- in the state reached:
     (1) the invariants hold again;
     (2) every stored offset, and (3) the position `GetCheckpoint` reads, is −1 ("none yet"), a
         snapshot offset, a command boundary of the history, or an offset `t0` already held;
-    (4) a position ≥ 0 is reported with a database (its run id is there: never "?");
-    (5) across every operation of the history that is not a sanctioned reset the position
-        read did not decrease; across a sanctioned reset -- complete or cut -- it stayed what it
-        was or became −1 (never a stale lower record: `reset_keeps_or_clears`); and what was read
-        after each operation was allowed. -/
+    (4) a position ≥ 0 is reported in exactly ONE database (its run id is there: never "?");
+    (5) every observation is `ObsOK`: no operation but a sanctioned reset lowers the offset; a
+        reset -- complete or cut -- leaves offset and database as they were or leaves nothing
+        (never a stale lower record); a RELABEL -- complete or cut -- reads back the same offset
+        IN THE SAME DATABASE (the D13 variant of `UpdateCheckpoint`, which wrote the carried
+        record into the database visited last, falsifies this conjunct); a life starts in the
+        database the position was read in (premise of `Hist.life`) and leaves the position in
+        one database again; and what was read after each operation was allowed. -/
 theorem all_writers_forward (t0 : TState) (h0 : Good t0) {T : TState} {S B : List Int}
     {tr : List Obs} (h : Hist t0 T S B tr) :
     Good T ∧ AllStored T (Allowed t0 S B) ∧ Allowed t0 S B (readPos T) ∧
-    (0 ≤ readPos T → readDbs T ≠ []) ∧
-    ∀ ob ∈ tr, (ob.reset = false → ob.before ≤ ob.after) ∧
-      (ob.reset = true → ob.after = ob.before ∨ ob.after = -1) ∧ Allowed t0 S B ob.after := by
+    (0 ≤ readPos T → ∃ d, readDbs T = [d]) ∧
+    ∀ ob ∈ tr, ObsOK ob ∧ Allowed t0 S B ob.after := by
   -- (3) and (4) follow from (1) and (2)
   have derive : ∀ (T : TState) (S B : List Int), Good T → AllStored T (Allowed t0 S B) →
-      Allowed t0 S B (readPos T) ∧ (0 ≤ readPos T → readDbs T ≠ []) := by
+      Allowed t0 S B (readPos T) ∧ (0 ≤ readPos T → ∃ d, readDbs T = [d]) := by
     intro T S B hg hall
     constructor
     · by_cases hm : 0 ≤ maxOffset T.cps
@@ -253,18 +528,11 @@ theorem all_writers_forward (t0 : TState) (h0 : Good t0) {T : TState} {S B : Lis
       · left; rw [readPos_eq]; have := maxOffset_ge T.cps; omega
     · intro hpos
       rw [readPos_eq] at hpos
-      obtain ⟨p, hp, ho⟩ := maxOffset_attained T.cps hpos
-      have hr := hg.runid p hp _ ho
-      unfold readDbs startPoint
-      have hnl : ¬ maxOffset T.cps < 0 := by omega
-      simp only [hnl, ↓reduceIte]
-      intro hnil
-      have : p.1 ∈ (T.cps.filter (fun p => decide (p.2.offset = some (maxOffset T.cps) ∧ p.2.hasRunId = true))).map (·.1) :=
-        List.mem_map.mpr ⟨p, List.mem_filter.mpr ⟨hp, by simp [ho, hr]⟩, rfl⟩
-      rw [hnil] at this; cases this
+      rcases read_of_good T hg with ⟨h, _⟩ | ⟨_, d, _, hr⟩
+      · omega
+      · exact ⟨d, hr⟩
   suffices hmain : Good T ∧ AllStored T (Allowed t0 S B) ∧
-      ∀ ob ∈ tr, (ob.reset = false → ob.before ≤ ob.after) ∧
-        (ob.reset = true → ob.after = ob.before ∨ ob.after = -1) ∧ Allowed t0 S B ob.after by
+      ∀ ob ∈ tr, ObsOK ob ∧ Allowed t0 S B ob.after by
     obtain ⟨hg, hall, htr⟩ := hmain
     obtain ⟨h3, h4⟩ := derive T S B hg hall
     exact ⟨hg, hall, h3, h4, htr⟩
@@ -273,113 +541,53 @@ theorem all_writers_forward (t0 : TState) (h0 : Good t0) {T : TState} {S B : Lis
     exact ⟨h0, fun p hp o ho => Or.inr (Or.inr (Or.inr ⟨p, hp, ho⟩)), fun ob hob => by cases hob⟩
   | @snapshot t S B tr _ off hnone hoff ih =>
     obtain ⟨hg, hall, htr⟩ := ih
-    have hg' : Good (applyOp t (.snapshot off)) :=
-      good_setCp t hg 0 { offset := some off, hasRunId := true } (fun _ _ => rfl) _ rfl
+    rw [readPos_eq] at hnone
+    obtain ⟨hg', hpos, _⟩ := good_setCp_none t hg hnone off (applyOp t (.snapshot off)) rfl
     have hall' : AllStored (applyOp t (.snapshot off)) (Allowed t0 (off :: S) B) := by
       intro p hp o ho
-      rcases mem_setCp (show p ∈ setCp t.cps 0 _ from hp) with rfl | hp
+      rcases mem_setCp (show p ∈ setCp t.cps 0 _ from hp) with rfl | ⟨hp, _⟩
       · simp only [Option.some.injEq] at ho; subst ho
         exact Or.inr (Or.inl (List.mem_cons_self ..))
       · exact (hall p hp o ho).mono (fun x hx => List.mem_cons_of_mem _ hx) (fun x hx => hx)
     refine ⟨hg', hall', ?_⟩
     intro ob hob
     rcases List.mem_cons.mp hob with rfl | hob
-    · refine ⟨fun _ => ?_, fun h => (by cases h), (derive _ _ _ hg' hall').1⟩
+    · have hd := derive _ _ _ hg' hall'
+      refine ⟨⟨fun _ => ?_, fun h => (by cases h), fun h => (by cases h), hd.2⟩, hd.1⟩
       show readPos t ≤ readPos (applyOp t (.snapshot off))
-      have := maxOffset_ge (applyOp t (.snapshot off)).cps
-      have h1 := maxOffset_ge t.cps
-      rw [readPos_eq] at hnone ⊢
-      rw [readPos_eq]; omega
-    · obtain ⟨a, r, b⟩ := htr ob hob
-      exact ⟨a, r, b.mono (fun x hx => List.mem_cons_of_mem _ hx) (fun x hx => hx)⟩
+      rw [readPos_eq, readPos_eq, (hpos hoff).1]; omega
+    · obtain ⟨a, b⟩ := htr ob hob
+      exact ⟨a, b.mono (fun x hx => List.mem_cons_of_mem _ hx) (fun x hx => hx)⟩
   | @relabel t S B tr _ gone ih =>
     obtain ⟨hg, hall, htr⟩ := ih
-    -- the three shapes of a relabel
-    have hcases : ((applyOp t (.relabel gone)).cps = markerCps t.cps ∧ maxOffset t.cps < 0) ∨
-        ∃ p ∈ t.cps, p.2.offset = some (maxOffset t.cps) ∧
-          (applyOp t (.relabel gone)).cps = p :: t.cps.filter (fun q => decide (q.1 ≠ p.1) && !gone q.1) := by
-      show ((relabelCps t.cps gone) = markerCps t.cps ∧ _) ∨ ∃ p ∈ t.cps, _ ∧ relabelCps t.cps gone = _
-      unfold relabelCps
-      by_cases hm : maxOffset t.cps < 0
-      · left; simp [hm]
-      · right
-        simp only [hm, ↓reduceIte]
-        cases hc : carrier t.cps with
-        | none =>
-          exfalso
-          obtain ⟨p, hp, ho⟩ := maxOffset_attained t.cps (by omega)
-          have hr := hg.runid p hp _ ho
-          unfold carrier at hc
-          have := List.find?_eq_none.mp hc p hp
-          simp [ho, hr] at this
-        | some p =>
-          unfold carrier at hc
-          have hp := List.mem_of_find?_eq_some hc
-          have hpred := List.find?_some hc
-          simp only [Bool.and_eq_true, decide_eq_true_eq] at hpred
-          exact ⟨p, hp, hpred.1, rfl⟩
-    rcases hcases with ⟨hcps, hm⟩ | ⟨p, hp, hpo, hcps⟩
-    · have hg' : Good (applyOp t (.relabel gone)) :=
-        good_setCp t hg 0 { offset := some (-1), hasRunId := true } (fun _ _ => rfl) _ hcps
-      have hall' : AllStored (applyOp t (.relabel gone)) (Allowed t0 S B) := by
-        intro q hq o ho
-        rw [hcps] at hq
-        rcases mem_setCp (show q ∈ setCp t.cps 0 _ from hq) with rfl | hq
-        · simp only [Option.some.injEq] at ho; subst ho; exact Or.inl rfl
-        · exact hall q hq o ho
-      refine ⟨hg', hall', ?_⟩
-      intro ob hob
-      rcases List.mem_cons.mp hob with rfl | hob
-      · refine ⟨fun _ => ?_, fun h => (by cases h), (derive _ _ _ hg' hall').1⟩
-        show readPos t ≤ readPos (applyOp t (.relabel gone))
-        have := maxOffset_ge (applyOp t (.relabel gone)).cps
-        have h1 := maxOffset_ge t.cps
-        rw [readPos_eq, readPos_eq]; omega
-      · exact htr ob hob
-    · have hsubset : ∀ q ∈ (applyOp t (.relabel gone)).cps, q ∈ t.cps := by
-        intro q hq
-        rw [hcps] at hq
-        rcases List.mem_cons.mp hq with rfl | hq
-        · exact hp
-        · exact (List.mem_filter.mp hq).1
-      have hg' : Good (applyOp t (.relabel gone)) := by
-        refine ⟨?_, fun q hq o ho => hg.runid q (hsubset q hq) o ho⟩
-        unfold KeysNodup
-        rw [hcps]
-        simp only [List.map_cons, List.nodup_cons]
-        refine ⟨?_, List.Nodup.sublist (List.Sublist.map _ List.filter_sublist) hg.nodup⟩
-        intro hmem
-        obtain ⟨q, hq, hqe⟩ := List.mem_map.mp hmem
-        have := (List.mem_filter.mp hq).2
-        simp only [Bool.and_eq_true, decide_eq_true_eq] at this
-        exact this.1 hqe
-      have hall' : AllStored (applyOp t (.relabel gone)) (Allowed t0 S B) :=
-        fun q hq o ho => hall q (hsubset q hq) o ho
-      refine ⟨hg', hall', ?_⟩
-      intro ob hob
-      rcases List.mem_cons.mp hob with rfl | hob
-      · refine ⟨fun _ => ?_, fun h => (by cases h), (derive _ _ _ hg' hall').1⟩
-        show readPos t ≤ readPos (applyOp t (.relabel gone))
-        rw [readPos_eq, readPos_eq]
-        exact le_maxOffset_of_mem _ p (by rw [hcps]; exact List.mem_cons_self ..) _ hpo
-      · exact htr ob hob
-  | @reset t S B tr _ gone hasc ih =>
-    obtain ⟨hg, hall, htr⟩ := ih
-    have hsub : List.Sublist (applyOp t (.reset gone)).cps t.cps := List.filter_sublist
-    have hg' := good_sub t hg _ hsub
-    have hall' : AllStored (applyOp t (.reset gone)) (Allowed t0 S B) :=
-      fun q hq o ho => hall q (hsub.subset hq) o ho
+    obtain ⟨hg', hpos, hdbs, hfrom⟩ := relabel_good t hg gone
+    have hall' : AllStored (applyOp t (.relabel gone)) (Allowed t0 S B) := by
+      intro q hq o ho
+      rcases hfrom q hq o ho with rfl | ⟨p, hp, hpo⟩
+      · exact Or.inl rfl
+      · exact hall p hp o hpo
     refine ⟨hg', hall', ?_⟩
     intro ob hob
     rcases List.mem_cons.mp hob with rfl | hob
-    · refine ⟨fun h => (by cases h), fun _ => ?_, (derive _ _ _ hg' hall').1⟩
-      show readPos (applyOp t (.reset gone)) = readPos t ∨ readPos (applyOp t (.reset gone)) = -1
-      rw [readPos_eq, readPos_eq]
-      exact reset_keeps_or_clears t.cps gone hasc
+    · have hd := derive _ _ _ hg' hall'
+      refine ⟨⟨fun _ => ?_, fun h => (by cases h), fun _ => ⟨hpos, hdbs⟩, hd.2⟩, hd.1⟩
+      show readPos t ≤ readPos (applyOp t (.relabel gone))
+      rw [hpos]; exact Int.le_refl _
     · exact htr ob hob
-  | @life t S B tr _ pc sc raws x evs k hx hx0 hitems hraw hlo hsel ih =>
+  | @reset t S B tr _ gone hasc ih =>
     obtain ⟨hg, hall, htr⟩ := ih
-    obtain ⟨hg', hmono, hfrom⟩ := life_good t hg pc sc raws x evs k hx hitems hraw hlo hsel
+    obtain ⟨hg', hkc, hsub⟩ := reset_good t hg gone hasc
+    have hall' : AllStored (applyOp t (.reset gone)) (Allowed t0 S B) :=
+      fun q hq o ho => hall q (hsub q hq) o ho
+    refine ⟨hg', hall', ?_⟩
+    intro ob hob
+    rcases List.mem_cons.mp hob with rfl | hob
+    · have hd := derive _ _ _ hg' hall'
+      exact ⟨⟨fun h => absurd rfl h, fun _ => hkc, fun h => (by cases h), hd.2⟩, hd.1⟩
+    · exact htr ob hob
+  | @life t S B tr _ pc sc raws x evs k hx hx0 hd hdb hitems hraw hlo hsel ih =>
+    obtain ⟨hg, hall, htr⟩ := ih
+    obtain ⟨hg', hmono, hfrom⟩ := life_good t hg pc sc raws x evs k hx hx0 hd hdb hitems hraw hlo hsel
     have hall' : AllStored (applyOp t (.life sc evs k)) (Allowed t0 S (x :: raws.map (·.off) ++ B)) := by
       intro q hq o ho
       rcases hfrom q hq o ho with ⟨p, hp, hpo⟩ | rfl | ⟨r, hr, rfl⟩
@@ -390,19 +598,24 @@ theorem all_writers_forward (t0 : TState) (h0 : Good t0) {T : TState} {S B : Lis
     refine ⟨hg', hall', ?_⟩
     intro ob hob
     rcases List.mem_cons.mp hob with rfl | hob
-    · exact ⟨fun _ => hmono, fun h => (by cases h), (derive _ _ _ hg' hall').1⟩
-    · obtain ⟨a, r, b⟩ := htr ob hob
-      exact ⟨a, r, b.mono (fun y hy => hy) (fun y hy => List.mem_append_right _ hy)⟩
+    · have hdv := derive _ _ _ hg' hall'
+      exact ⟨⟨fun _ => hmono, fun h => (by cases h), fun h => (by cases h), hdv.2⟩, hdv.1⟩
+    · obtain ⟨a, b⟩ := htr ob hob
+      exact ⟨a, b.mono (fun y hy => hy) (fun y hy => List.mem_append_right _ hy)⟩
+
+theorem good_empty : Good ({} : TState) := by
+  refine ⟨List.nodup_nil, fun p hp => (by cases hp), fun h => ?_⟩
+  have h1 : maxOffset ([] : Recs) = -1 := rfl
+  have h' : (0 : Int) ≤ maxOffset ([] : Recs) := h
+  omega
 
 /-- on a target that held nothing, the position is −1, a snapshot offset or a boundary -/
 theorem all_writers_forward_fresh {T : TState} {S B : List Int} {tr : List Obs}
     (h : Hist {} T S B tr) :
     (readPos T = -1 ∨ readPos T ∈ S ∨ readPos T ∈ B) ∧
-    ∀ ob ∈ tr, (ob.reset = false → ob.before ≤ ob.after) ∧
-      (ob.reset = true → ob.after = ob.before ∨ ob.after = -1) ∧
-      (ob.after = -1 ∨ ob.after ∈ S ∨ ob.after ∈ B) := by
-  have h0 : Good ({} : TState) := ⟨List.nodup_nil, fun p hp => by cases hp⟩
-  obtain ⟨_, _, h3, _, h5⟩ := all_writers_forward {} h0 h
+    (0 ≤ readPos T → ∃ d, readDbs T = [d]) ∧
+    ∀ ob ∈ tr, ObsOK ob ∧ (ob.after = -1 ∨ ob.after ∈ S ∨ ob.after ∈ B) := by
+  obtain ⟨_, _, h3, h4, h5⟩ := all_writers_forward {} good_empty h
   have strip : ∀ o, Allowed ({} : TState) S B o → (o = -1 ∨ o ∈ S ∨ o ∈ B) := by
     intro o ho
     rcases ho with h | h | h | ⟨p, hp, _⟩
@@ -410,41 +623,124 @@ theorem all_writers_forward_fresh {T : TState} {S B : List Int} {tr : List Obs}
     · exact Or.inr (Or.inl h)
     · exact Or.inr (Or.inr h)
     · cases hp
-  exact ⟨strip _ h3, fun ob hob => ⟨(h5 ob hob).1, (h5 ob hob).2.1, strip _ (h5 ob hob).2.2⟩⟩
+  exact ⟨strip _ h3, h4, fun ob hob => ⟨(h5 ob hob).1, strip _ (h5 ob hob).2⟩⟩
 
-/-- the relabel rule by itself: the marker −1 is written only when no position exists, and a
-    position that exists is carried over unchanged — complete or cut at any point -/
+/-- **The relabel rule by itself**: complete or cut at any point, `UpdateCheckpoint` reads back
+    the SAME POSITION -- the same offset in the same database (the marker −1 only when there is
+    none). What moves the carried record to another database (D13) or changes its offset
+    falsifies it. -/
 theorem relabel_keeps_position (t : TState) (hg : Good t) (gone : Int → Bool) :
-    readPos (applyOp t (.relabel gone)) = readPos t := by
-  have h := all_writers_forward t hg (Hist.relabel (Hist.init) gone)
-  have hle := (h.2.2.2.2 _ (List.mem_cons_self ..)).1 rfl
-  have hle : readPos t ≤ readPos (applyOp t (.relabel gone)) := hle
-  -- and it cannot grow: every record afterwards was there before, or is the marker
-  have hge : readPos (applyOp t (.relabel gone)) ≤ readPos t := by
-    rw [readPos_eq, readPos_eq]
-    by_cases hm : 0 ≤ maxOffset (applyOp t (.relabel gone)).cps
-    · obtain ⟨p, hp, ho⟩ := maxOffset_attained _ hm
-      have hp' : p ∈ relabelCps t.cps gone := hp
-      unfold relabelCps at hp'
-      have hmark : ∀ q ∈ markerCps t.cps, ∀ o, q.2.offset = some o → o ≤ maxOffset t.cps := by
-        intro q hq o hqo
-        rcases mem_setCp (show q ∈ setCp t.cps 0 _ from hq) with rfl | hq
-        · simp only [Option.some.injEq] at hqo; subst hqo; exact maxOffset_ge _
-        · exact le_maxOffset_of_mem _ q hq o hqo
-      split at hp'
-      · exact hmark p hp' _ ho
-      · split at hp'
-        · exact hmark p hp' _ ho
-        · rename_i q hq
-          rcases List.mem_cons.mp hp' with rfl | hp'
-          · exact le_maxOffset_of_mem _ _ (List.mem_of_find?_eq_some hq) _ ho
-          · exact le_maxOffset_of_mem _ p (List.mem_filter.mp hp').1 _ ho
-    · have := maxOffset_ge t.cps; omega
-  omega
+    readPos (applyOp t (.relabel gone)) = readPos t ∧
+    readDbs (applyOp t (.relabel gone)) = readDbs t :=
+  ⟨(relabel_good t hg gone).2.1, (relabel_good t hg gone).2.2.1⟩
 
-/-- decidable form of `AscGone` for concrete tables -/
-def ascGoneB (cps : Recs) (gone : Int → Bool) : Bool :=
-  cps.all (fun p => cps.all (fun q => !(gone q.1) || !(decide (offKey p < offKey q)) || gone p.1))
+/-- D13 as a counter-example: the same record written into ANOTHER database is a different
+    position for the modelled `GetCheckpoint`, so `relabel_keeps_position` tells them apart -/
+example : readDbs { cps := [(1, { offset := some 1133, hasRunId := true }), (0, { offset := some 1000, hasRunId := true })] } = [1] ∧
+    readDbs { cps := [(0, { offset := some 1133, hasRunId := true })] } = [0] := by decide +kernel
+
+/-! ### `AscGone` is a consequence of the order `DelCheckpoints` deletes in -/
+
+theorem mem_insAsc (p q : Int × CpRec) (l : Recs) : q ∈ insAsc p l ↔ q = p ∨ q ∈ l := by
+  induction l with
+  | nil => simp [insAsc]
+  | cons x rest ih =>
+    unfold insAsc
+    split
+    · simp
+    · simp only [List.mem_cons, ih]
+      constructor
+      · rintro (h | h | h)
+        · exact Or.inr (Or.inl h)
+        · exact Or.inl h
+        · exact Or.inr (Or.inr h)
+      · rintro (h | h | h)
+        · exact Or.inr (Or.inl h)
+        · exact Or.inl h
+        · exact Or.inr (Or.inr h)
+
+theorem sorted_insAsc (p : Int × CpRec) (l : Recs)
+    (h : l.Pairwise (fun a b => offKey a ≤ offKey b)) :
+    (insAsc p l).Pairwise (fun a b => offKey a ≤ offKey b) := by
+  induction l with
+  | nil => simp [insAsc]
+  | cons x rest ih =>
+    obtain ⟨hx, hrest⟩ := List.pairwise_cons.mp h
+    unfold insAsc
+    split
+    · rename_i hc
+      refine List.pairwise_cons.mpr ⟨?_, h⟩
+      intro b hb
+      have hpx : offKey p ≤ offKey x := by rcases hc with hc | hc <;> omega
+      rcases List.mem_cons.mp hb with rfl | hb
+      · exact hpx
+      · have := hx b hb; omega
+    · rename_i hc
+      refine List.pairwise_cons.mpr ⟨?_, ih hrest⟩
+      intro b hb
+      rcases (mem_insAsc p b rest).mp hb with rfl | hb
+      · have : ¬ offKey b < offKey x := fun h => hc (Or.inl h)
+        omega
+      · exact hx b hb
+
+theorem mem_delOrder (cps : Recs) (q : Int × CpRec) : q ∈ delOrder cps ↔ q ∈ cps := by
+  induction cps with
+  | nil => simp [delOrder]
+  | cons x rest ih =>
+    simp only [delOrder, List.foldr_cons] at ih ⊢
+    rw [mem_insAsc, ih, List.mem_cons]
+
+theorem sorted_delOrder (cps : Recs) : (delOrder cps).Pairwise (fun a b => offKey a ≤ offKey b) := by
+  induction cps with
+  | nil => simp [delOrder]
+  | cons x rest ih =>
+    simp only [delOrder, List.foldr_cons] at ih ⊢
+    exact sorted_insAsc x _ ih
+
+/-- **Whatever order `DelCheckpoints` takes, as long as it is ascending in the offsets** (ties in
+    any order: Go breaks them by mtime, then database): cut after ANY number `k` of deletions,
+    what is gone satisfies `AscGone`. -/
+theorem ascGone_of_sorted_prefix (cps : Recs) (hn : KeysNodup cps) (l : Recs)
+    (hmem : ∀ q, q ∈ l ↔ q ∈ cps) (hs : l.Pairwise (fun a b => offKey a ≤ offKey b)) (k : Nat) :
+    AscGone cps (gonePrefix l k) := by
+  intro p hp q hq hg hlt
+  unfold gonePrefix at hg ⊢
+  obtain ⟨e, he, hek⟩ := List.any_eq_true.mp hg
+  have heq : e = q := mem_same_key hn ((hmem e).mp (List.mem_of_mem_take he)) hq (by simpa using hek)
+  subst heq
+  have hsplit : l = l.take k ++ l.drop k := (List.take_append_drop k l).symm
+  have hpl : p ∈ l.take k ++ l.drop k := by rw [← hsplit]; exact (hmem p).mpr hp
+  rcases List.mem_append.mp hpl with h | h
+  · exact List.any_eq_true.mpr ⟨p, h, by simp⟩
+  · exfalso
+    rw [hsplit, List.pairwise_append] at hs
+    have := hs.2.2 e he p h
+    omega
+
+/-- the modelled order (`delOrder`: ascending by offset, then database) gives `AscGone` -/
+theorem ascGone_delOrder (cps : Recs) (hn : KeysNodup cps) (k : Nat) :
+    AscGone cps (gonePrefix (delOrder cps) k) :=
+  ascGone_of_sorted_prefix cps hn _ (mem_delOrder cps) (sorted_delOrder cps) k
+
+/-- a reset as the code performs it: `DelCheckpoints` cut after `k` deletions -- no premise on
+    what is gone -/
+theorem Hist.resetCut {t0 t : TState} {S B : List Int} {tr : List Obs} (hg0 : Good t0)
+    (h : Hist t0 t S B tr) (k : Nat) :
+    Hist t0 (applyOp t (.reset (gonePrefix (delOrder t.cps) k))) S B
+      (obs .reset t (.reset (gonePrefix (delOrder t.cps) k)) :: tr) :=
+  Hist.reset h _ (ascGone_delOrder t.cps (all_writers_forward t0 hg0 h).1.nodup k)
+
+/-- the modelled `DelCheckpoints` on the table of the example below: the stale record of database
+    0 goes first, the position (1133 in database 1) last -/
+example : resetCutCps [(1, { offset := some 1133, hasRunId := true }), (0, { offset := some 1000, hasRunId := true })] 1 =
+    [(1, { offset := some 1133, hasRunId := true })] := by decide +kernel
+/-- the old order (the largest first) is NOT ascending: such a cut cannot be a `Hist.reset` -/
+example : ¬ AscGone [(1, { offset := some 1133, hasRunId := true }), (0, { offset := some 1000, hasRunId := true })]
+    (fun d => d == 1) := by
+  intro h
+  have := h (0, { offset := some 1000, hasRunId := true }) (by simp)
+    (1, { offset := some 1133, hasRunId := true }) (by simp) rfl (by decide)
+  cases this
 
 theorem ascGoneB_spec (cps : Recs) (gone : Int → Bool) (h : ascGoneB cps gone = true) :
     AscGone cps gone := by
@@ -499,11 +795,11 @@ theorem hHist : ∃ T S B tr, Hist {} T S B tr ∧ readPos T = 900 ∧ tr.length
   have s1 := Hist.relabel (t0 := {}) Hist.init hAll
   have s2 := Hist.snapshot s1 1000 (by decide +kernel) (by omega)
   have s3 := Hist.life s2 (hPc 0) hCfg1 hRaws1 1000 hEvs1 5 (by decide +kernel) (by omega)
-    (by decide +kernel) (by decide +kernel) (by decide +kernel)
+    (by decide +kernel) (by decide +kernel) (by decide +kernel) (by decide +kernel) (by decide +kernel)
     (selOK_spec hRaws1 (by decide +kernel))
   have s4 := Hist.relabel s3 hNone
   have s5 := Hist.life s4 (hPc 1) hCfg2 hRaws2 1077 hEvs2 10 (by decide +kernel) (by omega)
-    (by decide +kernel) (by decide +kernel) (by decide +kernel)
+    (by decide +kernel) (by decide +kernel) (by decide +kernel) (by decide +kernel) (by decide +kernel)
     (selOK_spec hRaws2 (by decide +kernel))
   have s6 := Hist.reset s5 hDb0 (ascGoneB_spec _ _ (by decide +kernel))
   have s7 := Hist.reset s6 hAll (fun p _ _ _ _ _ => rfl)
